@@ -128,7 +128,16 @@ def run(ctx):
     r, I = ctx.run(sf, no_inline=(SU + 'split_waterfall_generator',))
     wr = [e for e in I.events if e.kind == 'call' and e.data['name'] == '.write_to_fil']
     g = [e for e in I.events if e.kind == 'call' and e.data['name'] == SU + 'split_waterfall_generator']
-    ok = len(wr) == 1 and len(wr[0].loops) == 1 and not wr[0].pc and len(g) == 1 and all(
+    def per_piece(e):
+        # once per iteration of a loop over the generator, or applied to the items of the generator in a comprehension
+        if len(e.loops) == 1:
+            return True
+        rv = e.data.get('recv')
+        return rv is not None and not e.loops and any(
+            a.kind in ('sub', 'elem') and any(x.kind == 'call' and x.args[0] == SU + 'split_waterfall_generator'
+                                              for x in T.all_atoms(a.args[0]).values())
+            for a in T.all_atoms(rv).values())
+    ok = len(wr) == 1 and per_piece(wr[0]) and not wr[0].pc and len(g) == 1 and all(
         g[0].data['bound'].get(p, NONE).key == sym(p).key for p in ('waterfall_fn', 'fchans', 'tchans', 'f_shift'))
     ctx.ob('AGREE', 'split_fil forwards its arguments to the generator and writes every yielded piece exactly once', sf, ok,
            {'generator_call': [e.text()[:100] for e in g], 'writes': [e.text() for e in wr]}, node=sf.node, construct='split_fil loop')
@@ -214,6 +223,11 @@ def run(ctx):
         want_n = 3 if nm == 'get_parameter_distributions' else 1
         ok = len(g) == 1 and all(g[0].data['bound'].get(p, NONE).key == sym(p).key for p in ('waterfall_fn', 'fchans', 'tchans', 'f_shift')) \
             and per_piece and len(comps) == want_n
+        forwarded = len(g) == 1 and all(g[0].data['bound'].get(p, NONE).key == sym(p).key for p in ('waterfall_fn', 'fchans', 'tchans', 'f_shift'))
+        if forwarded and not comps:
+            # the statistics are collected some other way than one list per statistic grown in the loop over the pieces (lists
+            # of lists filled through aliases, ...): the one-entry-per-piece shape is not visible to this rule -- not decided
+            ok = None
         ctx.ob('AGREE', f'{nm}: one entry per piece of the split (arguments forwarded)', f2, ok,
                {'generator_call': [e.text()[:100] for e in g], 'returned': pretty(r.ret)[:300] if r.ret is not None else None},
                node=f2.node, construct=f'{nm} loop')
